@@ -96,6 +96,7 @@ type FuncGen struct {
 	logCalls map[*ssa.Call]*logInfo
 	logList []*logInfo
 	heapQueue [][2]string
+	undecided []Undecided
 }
 
 type iterInfo struct {
@@ -285,8 +286,8 @@ func (g *Gen) GenFunc(fn *ssa.Function) (*FuncGen, error) {
 		env.assume = true
 		for _, r := range fg.c.Requires {
 			t := env.Tr(r.E)
-			if fg.err != nil {
-				return nil, fmt.Errorf("%s requires: %v", r.Pos, fg.err)
+			if fg.clauseFailed(r) {
+				continue
 			}
 			fg.emit("(assert %s) ; requires %s", t.S, r.Pos)
 		}
@@ -794,6 +795,13 @@ func (fg *FuncGen) store(p *Ptr, v string) {
 		f := g.SeqFamily(p.ElemSort)
 		cur := fg.famIn(fg.st, f)
 		fg.setFam(f, fmt.Sprintf("(store %s (sref %s) (store (select %s (sref %s)) (+ (soff %s) %s) %s))", cur, p.Slice, cur, p.Slice, p.Slice, p.Idx, v))
+		// the same update stated through the element-access function (so that quantified facts about
+		// elements are triggered by the post-state terms)
+		nw := fg.famIn(fg.st, f)
+		gf := gatName(p.ElemSort)
+		fg.emit("(assert (= (%s %s %s %s) %s))", gf, nw, p.Slice, p.Idx, v)
+		fg.emit("(assert (forall ((s Slice) (j Int)) (! (=> (or (not (= (sref s) (sref %s))) (not (= (+ (soff s) j) (+ (soff %s) %s)))) (= (%s %s s j) (%s %s s j))) :pattern ((%s %s s j)))))",
+			p.Slice, p.Slice, p.Idx, gf, nw, gf, cur, gf, nw)
 	}
 }
 
@@ -1018,9 +1026,8 @@ func (fg *FuncGen) loopHead(li *loopInfo, fwd []*ssa.BasicBlock, in string, rnam
 		env := fg.loopEnv(li, li.initSt, initVals)
 		for i, inv := range li.spec.Invariants {
 			t := env.Tr(inv.E)
-			if fg.err != nil {
-				fg.err = fmt.Errorf("%s: %v", inv.Pos, fg.err)
-				return
+			if fg.clauseFailed(inv) {
+				continue
 			}
 			fg.obl("inv.init", fmt.Sprintf("loop%d.inv%d.init", li.ordinal, i+1), li.pos, pick(inv.Tags, tags), t.S, inv.Text)
 		}
@@ -1095,9 +1102,8 @@ func (fg *FuncGen) loopHead(li *loopInfo, fwd []*ssa.BasicBlock, in string, rnam
 		env.assume = true
 		for _, inv := range li.spec.Invariants {
 			t := env.Tr(inv.E)
-			if fg.err != nil {
-				fg.err = fmt.Errorf("%s: %v", inv.Pos, fg.err)
-				return
+			if fg.clauseFailed(inv) {
+				continue
 			}
 			fg.emit("(assert (=> %s %s)) ; invariant %s", rname, t.S, inv.Pos)
 		}
@@ -1170,9 +1176,8 @@ func (fg *FuncGen) finishLoops() {
 			tags := fg.funcTags()
 			for i, inv := range li.spec.Invariants {
 				t := env.Tr(inv.E)
-				if fg.err != nil {
-					fg.err = fmt.Errorf("%s: %v", inv.Pos, fg.err)
-					return
+				if fg.clauseFailed(inv) {
+					continue
 				}
 				fg.obl("inv.pres", fmt.Sprintf("loop%d.inv%d.pres", li.ordinal, i+1), li.pos, pick(inv.Tags, tags), t.S, inv.Text)
 			}
@@ -1209,9 +1214,8 @@ func (fg *FuncGen) finishReturns() {
 					continue
 				}
 				t := env.Tr(en.E)
-				if fg.err != nil {
-					fg.err = fmt.Errorf("%s: %v", en.Pos, fg.err)
-					return
+				if fg.clauseFailed(en) {
+					continue
 				}
 				parts = append(parts, t.S)
 				for _, tg := range pick(en.Tags, fg.c.Tags) {
@@ -1234,9 +1238,8 @@ func (fg *FuncGen) finishReturns() {
 				continue
 			}
 			t := env.Tr(en.E)
-			if fg.err != nil {
-				fg.err = fmt.Errorf("%s: %v", en.Pos, fg.err)
-				return
+			if fg.clauseFailed(en) {
+				continue
 			}
 			detail := fmt.Sprintf("post.%d", i+1)
 			if en.Label != "" {
@@ -1629,4 +1632,25 @@ func (fg *FuncGen) splitByPred(first int, p *ssa.BasicBlock, guard string) {
 			fg.obls = append(fg.obls, &c)
 		}
 	}
+}
+
+// Undecided: a contract clause that could not be related to the current code (a name it mentions no
+// longer exists, e.g. after a refactoring).  The clause is skipped; the automatic obligations of the
+// function are still generated.
+type Undecided struct {
+	Func, Pos, Text, Reason string
+	Tags                    []string
+}
+
+func (fg *FuncGen) clauseFailed(c *Clause) bool {
+	if fg.err == nil {
+		return false
+	}
+	tags := c.Tags
+	if len(tags) == 0 && fg.c != nil {
+		tags = fg.c.Tags
+	}
+	fg.undecided = append(fg.undecided, Undecided{Func: fg.key, Pos: c.Pos, Text: c.Text, Reason: fg.err.Error(), Tags: tags})
+	fg.err = nil
+	return true
 }
